@@ -28,6 +28,13 @@ type ScriptReader struct {
 	Steps    []Step
 	Injected error // returned for Err == "X"
 	After    error // error once data and script are exhausted (default io.EOF)
+	// NonSticky: an injected error is reported once; later reads continue
+	// (with io.EOF once the data is exhausted), like a reset connection.
+	NonSticky bool
+	// Block: once data and script are exhausted, Read blocks until Release is
+	// closed (a connection that stays open), then returns io.EOF.
+	Block   bool
+	Release chan struct{}
 
 	pos         int
 	step        int
@@ -87,14 +94,26 @@ func (r *ScriptReader) Read(p []byte) (n int, err error) {
 			r.dead = io.EOF
 			return n, io.EOF
 		case "X":
-			r.dead = r.Injected
+			if !r.NonSticky {
+				r.dead = r.Injected
+			}
 			return n, r.Injected
 		}
 		return n, nil
 	}
 	if left == 0 {
+		if r.Block && r.Release != nil {
+			<-r.Release
+			return 0, io.EOF
+		}
 		if r.After != nil {
-			r.dead = r.After
+			if !r.NonSticky {
+				r.dead = r.After
+			} else {
+				err := r.After
+				r.After = nil
+				return 0, err
+			}
 			return 0, r.After
 		}
 		return 0, io.EOF
@@ -136,4 +155,24 @@ func (w *ScriptWriter) Write(p []byte) (int, error) {
 		err = errors.New("short write")
 	}
 	return room, err
+}
+
+// ChunkLenReader is a ScriptReader that also has a Len method reporting the
+// bytes of the current chunk that are still undelivered (what a segment
+// queue or ring buffer calls its length), not the bytes of the whole stream.
+type ChunkLenReader struct{ *ScriptReader }
+
+func (c ChunkLenReader) Len() int {
+	r := c.ScriptReader
+	if r.step < len(r.Steps) {
+		if r.stepStarted {
+			return r.stepLeft
+		}
+		n := r.Steps[r.step].N
+		if left := len(r.Data) - r.pos; n > left {
+			n = left
+		}
+		return n
+	}
+	return len(r.Data) - r.pos
 }
